@@ -21,6 +21,9 @@ Definition mk_sl (ab : Z * Z) : someslice := SSl (Some (fst ab)) (Some (snd ab))
 Definition mk_roi (r : (Z * Z) * (Z * Z)) : someslice * someslice := (mk_sl (fst r), mk_sl (snd r)).
 Definition int_idx (rc : Z * Z) : someslice * someslice := (SInt (fst rc), SInt (snd rc)).
 
+(** Python [sum] *)
+Definition sumZ (l : list Z) : Z := fold_left Z.add l 0.
+
 (** * Regular tiles *)
 
 (** [-(-N // n)] *)
